@@ -59,10 +59,11 @@ def build_server(ctx, probe, cfg, allresolvers=True, race=False, extra_yml=""):
     h.update(repr(CONFIGS[cfg]).encode() + extra_yml.encode())
     key = "%s_%s%s_%s_%s" % (probe, cfg, "_race" if race else "", th, h.hexdigest()[:8])
     out = os.path.join(vf.CACHE, "srv_" + key)
-    if os.path.exists(out):
-        return out
     pkg = "%s_%s" % (probe, cfg)
     d = os.path.join(vf.GO, "genout", pkg)
+    stamp = os.path.join(d, ".verif_stamp")
+    if os.path.exists(out) and os.path.exists(stamp) and open(stamp).read() == key:
+        return out
     shutil.rmtree(d, ignore_errors=True)
     os.makedirs(d)
     for f in os.listdir(probe_dir):
@@ -78,6 +79,7 @@ def build_server(ctx, probe, cfg, allresolvers=True, race=False, extra_yml=""):
     if rc != 0:
         raise RuntimeError("generation failed for %s/%s:\n%s%s" % (probe, cfg, so[-3000:], se[-3000:]))
     ctx.go_build("./genout/%s/cmd" % pkg, out, race=race)
+    open(stamp, "w").write(key)
     # drop stale binaries of other tree hashes for this (probe, cfg)
     for f in os.listdir(vf.CACHE):
         if f.startswith("srv_%s_%s%s_" % (probe, cfg, "_race" if race else "")) and f != os.path.basename(out):
@@ -86,6 +88,11 @@ def build_server(ctx, probe, cfg, allresolvers=True, race=False, extra_yml=""):
             except OSError:
                 pass
     return out
+
+
+def gen_dir(probe, cfg):
+    """package directory of the server generated for (probe, cfg) on this run"""
+    return os.path.join(vf.GO, "genout", "%s_%s" % (probe, cfg))
 
 
 def build_matrix(ctx, probe, cfgs, **kw):
